@@ -20,7 +20,7 @@ INV_PROP = {
 EV_PROP = {
     "enter": "C13",
     "recv": ("C13", "C14"), "cancelobserved": "C14", "returned": "C14", "sending": ("C13", "C14"),
-    "acquired": "C15", "locked": "C15", "acquiring": "C15", "locking": "C15", "write": "C15", "writefail": "C15", "flush": "C15", "releasing": "C15", "unlocking": "C15", "frag": "C15",
+    "acquired": "C15", "locked": "C15", "acquiring": "C15", "locking": "C15", "write": "C15", "writefail": ("C15", "C16"), "flush": "C15", "releasing": "C15", "unlocking": "C15", "frag": "C15",
     "idle": "C16", "sort": "C16", "run": "C16", "alldone": "C16", "hang": "C16", "panic": "C16",
     "add": "C16", "dep": "C16", "retries": "C16", "deferr": "C16", "config": "C16",
     "dot": "C16", "validate": "C16", "rerun": ("C14", "C16"), "tmadd": "C16", "tmgetbad": "C16",
